@@ -64,9 +64,25 @@ func (vfs *MemFS) searchNode(path string, slMode slMode) (
 	}
 
 	parent = volNode
+	rootChecked := false
 
 	for pi.Next() {
 		name := pi.Part()
+
+		if !rootChecked {
+			// the root directory must be searchable too (the other directories are checked when they are entered).
+			rootChecked = true
+
+			volNode.mu.RLock()
+			ok := volNode.checkPermission(avfs.OpenLookup, vfs.User())
+			volNode.mu.RUnlock()
+
+			if !ok {
+				err = vfs.err.PermDenied
+
+				return
+			}
+		}
 
 		parent.mu.RLock()
 		child = parent.children[name]
